@@ -8,13 +8,13 @@ mkdir -p /tmp/reseed
 git -C /tmp/reseed/wt checkout -q -- . ; git -C /tmp/reseed/wt checkout -q --force --detach "$(git -C /repo rev-parse HEAD)"
 for id in $IDS; do
   P=${id%-*}
-  for pre in seed seed2 seed3 seed4 seed5 seed6 seed7; do ln -sfn /tmp/reseed/wt /tmp/$pre-$P; done
+  for pre in seed seed2 seed3 seed4 seed5 seed6 seed7 seed8; do ln -sfn /tmp/reseed/wt /tmp/$pre-$P; done
   rm -rf /tmp/reseed/wt/SEED-r; mkdir -p /tmp/reseed/wt/SEED-r
   cp /verif/seeded/$id/patch.diff /verif/seeded/$id/meta.json /tmp/reseed/wt/SEED-r/; cp -r /verif/seeded/$id/demo /tmp/reseed/wt/SEED-r/demo
   # the recorded demo command refers to SEED-a or SEED-b: provide both names
-  for n in SEED-a SEED-b SEED-c SEED-d SEED-e SEED-f SEED-g SEED-h SEED-i SEED-j SEED-k SEED-l SEED-m SEED-n; do rm -rf /tmp/reseed/wt/$n; mkdir -p /tmp/reseed/wt/$n; cp -r /verif/seeded/$id/demo /tmp/reseed/wt/$n/demo; done
+  for n in SEED-a SEED-b SEED-c SEED-d SEED-e SEED-f SEED-g SEED-h SEED-i SEED-j SEED-k SEED-l SEED-m SEED-n SEED-o SEED-p; do rm -rf /tmp/reseed/wt/$n; mkdir -p /tmp/reseed/wt/$n; cp -r /verif/seeded/$id/demo /tmp/reseed/wt/$n/demo; done
   echo "== $id"
   /verif/tools/confirm_seed.sh /tmp/reseed/wt SEED-r "$id" 2>&1 | grep -E "clean-demo|CONFIRMED"
-  for pre in seed seed2 seed3 seed4 seed5 seed6 seed7; do rm -f /tmp/$pre-$P; done
+  for pre in seed seed2 seed3 seed4 seed5 seed6 seed7 seed8; do rm -f /tmp/$pre-$P; done
 done
 rm -rf /tmp/reseed/wt/SEED-*
